@@ -31,6 +31,7 @@ type Obligation struct {
 	Workers   int      `json:"workers,omitempty"`
 	LogDir    string   `json:"log_dir,omitempty"`
 	MaxSeconds int     `json:"max_seconds,omitempty"`
+	Opaque    []string `json:"opaque,omitempty"` // functions whose (string) result is an opaque text: a stated cut
 }
 
 type Spec struct {
@@ -189,6 +190,10 @@ func runObligation(eng *Engine, spec *Spec, ob Obligation) (res ObligationResult
 		run.StepLimit = ob.StepLimit
 	}
 	run.MaxPaths = ob.MaxPaths
+	run.OpaqueFns = map[string]bool{}
+	for _, k := range ob.Opaque {
+		run.OpaqueFns[k] = true
+	}
 	for _, k := range ob.Known {
 		run.KnownIDs[k] = true
 	}
